@@ -1,6 +1,7 @@
 """C07 -- bitmask names and values convert consistently for any maskbits file."""
 import os
 
+import re
 import numpy as np
 from hypothesis import strategies as st
 
@@ -61,7 +62,11 @@ def config(draw, reuse=None):
                 # round 10: fields separated by a tab / tab and blanks (the official sdssMaskbits.par mixes both); a masktype typedef that
                 # parses (no braces in its comment) with a width column that is a remark, not a constraint on the bit numbers
                 fieldsep=draw(st.sampled_from([None, None, '\t', '\t ', ' \t', '\t\t'])), masktype_plain=draw(st.booleans()),
-                masktype_width=draw(st.sampled_from([64, 32, 16, 8])))
+                masktype_width=draw(st.sampled_from([64, 32, 16, 8])),
+                # round 12: the bit column declared short / int / long (all integers of the format); rows continued on a second line before
+                # the label field, with nothing / a blank / a tab behind the backslash
+                bit_type=draw(st.sampled_from(['short', 'long', 'int', 'short'])), cont=draw(st.sampled_from([0, 0, 1, 2])),
+                cont_trail=draw(st.sampled_from([' ', '', '\t', '  '])))
 
 
 def mixcase(draw, s):
@@ -112,6 +117,7 @@ def render(cfg):
     bits_decl = ['    char flag[20]; # Flag name', '    short bit; # Bit number, 0-indexed', '    char label[30]; # Bit label']
     if swap_bits:
         bits_decl = [bits_decl[2], bits_decl[0], bits_decl[1]]
+    bits_decl = [b_.replace('short bit;', cfg.get('bit_type', 'short') + ' bit;') for b_ in bits_decl]
     lines = ['#%yanny', '# generated maskbits file', '', 'typedef struct {'] + bits_decl + [
              '    char description[100]; # text description', '} maskbits;', '', 'typedef struct {',
              '    char flag[20]; # Flag name', '    short datatype; # Data type 8, 16, 32 or 64' if cfg.get('masktype_plain') else '    short datatype; # Data type {8, 16, 32, 64}',
@@ -178,6 +184,16 @@ def render(cfg):
             if i and i % bl == 0:
                 out.append(('', '  ', '\t', ' \t')[(i // bl) % 4])
             out.append(r)
+        rows = out
+    ct = cfg.get('cont', 0)
+    if ct:
+        out = []
+        for i, r in enumerate(rows):
+            m_ = re.match(r'(\s*(?:maskbits|maskalias)\s+\S+\s+\S+)\s+(\S.*)$', r)
+            if m_ and (i + ct) % 3 == 0 and '\\' not in r:
+                out += [m_.group(1) + ' \\' + cfg.get('cont_trail', ''), '      ' + m_.group(2)]
+            else:
+                out.append(r)
         rows = out
     nl = '\r\n' if cfg['crlf'] else '\n'
     return nl.join(lines + rows) + (nl if cfg.get('final_newline', True) else '')
